@@ -160,6 +160,46 @@ fn run(name: &str, a: &[i128]) -> String {
             Some(v) => format!("1 {v}"),
             None => "0".to_string(),
         },
+        "instant_epoch_ms" => match Instant::try_new(a[0]) {
+            Ok(i) => format!("{}", i.epoch_milliseconds()),
+            Err(_) => "PANIC invalid instant".to_string(),
+        },
+        "norm_from_nanosecond_difference" => match h::norm_from_nanosecond_difference(a[0], a[1]) {
+            Ok(v) => format!("0 {v}"),
+            Err(e) => format!("1 {}", e.kind() as u8),
+        },
+        "norm_add_days" => match h::norm_add_days(a[0], a[1] as i64) {
+            Ok(v) => format!("0 {v}"),
+            Err(e) => format!("1 {}", e.kind() as u8),
+        },
+        "instant_add" => {
+            use temporal_rs::primitive::FiniteF64 as F;
+            let f = |x: i128| F::try_from(x as f64).unwrap_or_default();
+            let Ok(i) = Instant::try_new(a[0]) else { return "1 2".into() };
+            let d = match temporal_rs::Duration::new(F::default(), F::default(), F::default(), F::default(),
+                f(a[1]), f(a[2]), f(a[3]), f(a[4]), f(a[5]), f(a[6])) {
+                Ok(d) => d,
+                Err(e) => return format!("1 {}", e.kind() as u8),
+            };
+            match i.add(d) {
+                Ok(v) => format!("0 {}", v.as_i128()),
+                Err(e) => format!("1 {}", e.kind() as u8),
+            }
+        }
+        "plain_time_add" => {
+            use temporal_rs::primitive::FiniteF64 as F;
+            let f = |x: i128| F::try_from(x as f64).unwrap_or_default();
+            let t = time6(a);
+            let Ok(pt) = temporal_rs::PlainTime::try_new(t.hour, t.minute, t.second, t.millisecond, t.microsecond, t.nanosecond) else { return "1 2".into() };
+            let td = match temporal_rs::TimeDuration::new(f(a[6]), f(a[7]), f(a[8]), f(a[9]), f(a[10]), f(a[11])) {
+                Ok(d) => d,
+                Err(e) => return format!("1 {}", e.kind() as u8),
+            };
+            match pt.add_time_duration(&td) {
+                Ok(r) => format!("0 {} {} {} {} {} {}", r.hour(), r.minute(), r.second(), r.millisecond(), r.microsecond(), r.nanosecond()),
+                Err(e) => format!("1 {}", e.kind() as u8),
+            }
+        }
         "negate_mode" => format!("{}", vharness::common::mode_idx(mode(a[0]).negate())),
         "unsigned_mode" => {
             use temporal_rs::options::UnsignedRoundingMode as U;
